@@ -109,3 +109,43 @@ func VerifC12_PacketWrite() {
 	}
 	vf.Reach("end")
 }
+
+// Sequences of writes on ONE packet connection to independent symbolic destinations.
+func VerifC12_PacketWriteSequence() {
+	ioc, c, fd := c12Conn(vkernel.Config{AllowAgain: true, AllowIOErr: true, Batch: 1, MaxWaits: 6})
+	f := &vkernel.K.FDs[fd]
+	N := vf.Bound("writes", 2, 3)
+	vf.Unwind(16)
+	sent := 0
+	for i := 0; i < N; i++ {
+		to := &net.UDPAddr{IP: net.IP{vf.Uint8("a"), vf.Uint8("b"), vf.Uint8("c"), vf.Uint8("d")}, Port: int(vf.Uint16("port"))}
+		b := vf.Bytes("payload", 2)
+		var err error
+		calls := 1
+		if vf.Bool("async") {
+			calls = 0
+			c.AsyncWriteTo(b, to, func(e error) { calls++; err = e })
+			for p := 0; p < 2 && calls == 0; p++ {
+				ioc.PollOne()
+			}
+			vf.Assert("at-most-once", calls <= 1)
+		} else {
+			err = c.WriteTo(b, to)
+		}
+		if calls == 1 && err == nil {
+			sent++
+			vf.Assert("one-more-datagram-emitted", vf.All(f.Sent == sent, len(f.Accepted) == 2, f.Accepted[0] == b[0], f.Accepted[1] == b[1]))
+			vf.Assert("datagram-goes-to-the-destination-of-this-write", vf.All(f.SentTo[0] == to.IP[0], f.SentTo[1] == to.IP[1],
+				f.SentTo[2] == to.IP[2], f.SentTo[3] == to.IP[3], f.SentPort == to.Port))
+		} else {
+			vf.Assert("nothing-emitted-without-success", f.Sent == sent)
+		}
+		if calls == 0 {
+			break
+		}
+	}
+	if sent >= 2 {
+		vf.Reach("two-writes-sent")
+	}
+	vf.Reach("end")
+}
